@@ -271,8 +271,8 @@ type ser struct {
 	out []uint64
 }
 
-func (s *ser) n(v int)        { s.out = append(s.out, uint64(v)) }
-func (s *ser) id(hex string)  { s.out = append(s.out, uint64(s.u.ids[hex])) }
+func (s *ser) n(v int)       { s.out = append(s.out, uint64(v)) }
+func (s *ser) id(hex string) { s.out = append(s.out, uint64(s.u.ids[hex])) }
 func (s *ser) bits(b chunkinfo.VerifBits) {
 	s.n(b.Len)
 	s.n(len(b.B))
